@@ -151,7 +151,7 @@ pub fn program(route: &str, ty: &str, v: &str, pos: (&str, &str), form: &str, pa
         ),
         "trait-method-call" => main(
             &format!("trait Mk {{ fn mk(Self) -> {}; }}\nimpl Mk for bool {{ fn mk(self: bool) -> {} {{ {} }} }}\n", ty, ty, v),
-            format!("let r = {};", u("true.mk()")),
+            format!("let r = {};", u("Mk::mk(true)")),
         ),
         "closure-param" => main("", format!("let f = |x| {};\n    let r = f({});", u("x"), v)),
         "closure-param-late" => main(
